@@ -181,6 +181,16 @@ def _(c):
             and node_info.ieee == rets(fx, "ezsp.getEui64")[0][0],
         ),
     )
+    # "with presence flags that match the fields supplied": when the backup's EUI64 WAS written, the trust-centre
+    # address that goes into the security state is the one the backup supplied (known or unknown), nothing invented
+    c.ensures(
+        "post.supplied_trust_centre_kept_when_eui64_written",
+        lambda network_info, node_info, fx: implies(
+            calls(fx, "ezsp.write_custom_eui64") != [],
+            network_info.tc_link_key.partner_ieee == old(network_info.tc_link_key.partner_ieee)
+            and node_info.ieee == old(node_info.ieee),
+        ),
+    )
     c.ensures(
         "post.eui64_written_only_when_it_differs_and_is_allowed",
         lambda node_info, fx: all(r[2][0] == old(node_info.ieee) for r in calls(fx, "ezsp.write_custom_eui64"))
